@@ -82,6 +82,60 @@ def vr_match(chk, fx, rule, path, where):
     return h, ms[0]
 
 
+def endianness_purity(chk, fx):
+    # ---------------- rule 3: endianness purity (MIR, resolved generic argument)
+    chk.rule("endianness-purity", "every ByteOrder call inside a codec's impl resolves to the codec's endianness; "
+             "BasicEncode::endianness returns the matching constant; the `basic` field is the matching basic codec")
+    n_calls = 0
+    for group, table in (("enc", ENCODERS), ("dec", DECODERS)):
+        for key, spec in table.items():
+            ty, endian = spec[0], spec[1]
+            fs = fx.find_fns("dicom_encoding", lambda p, ty=ty: p.startswith(f"<{ty} as "))
+            if len(fs) < 3:
+                raise facts.MissingAnchor(f"impl bodies for {ty}: {len(fs)}")
+            for f in fs:
+                for bb, t in M.calls(f):
+                    c = M.callee(t) or ""
+                    if "byteorder::ByteOrder>::" in c:
+                        n_calls += 1
+                        chk.expect(f"<byteorder::{endian} as" in c, "endianness-purity", f["path"], c.split("::")[-1] + f"@{t['l']}",
+                                   endian, c, loc=f"{f['loc']['f']}:{t['l']}")
+            # the basic codec field
+            adt = fx.adt(ty.replace("<D>", ""))
+            basic = [fl for v in adt["variants"] for fl in v["fields"] if fl["name"] == "basic"]
+            exp_basic = ("LittleEndianBasic" if endian == "LittleEndian" else "BigEndianBasic") + ("Encoder" if group == "enc" else "Decoder")
+            chk.expect(len(basic) == 1 and basic[0]["ty"].endswith(exp_basic), "endianness-purity", ty, "basic-field", exp_basic,
+                       [b["ty"] for b in basic])
+    # also helper fns in adaptive_le
+    for p in (f"{DEC}::adaptive_le::decode_explicit_length", f"{DEC}::adaptive_le::decode_implicit_length", f"{DEC}::adaptive_le::decode_explicit_header"):
+        f = fx.fn(p)
+        for bb, t in M.calls(f):
+            c = M.callee(t) or ""
+            if "byteorder::ByteOrder>::" in c:
+                n_calls += 1
+                chk.expect("<byteorder::LittleEndian as" in c, "endianness-purity", p, c.split("::")[-1] + f"@{t['l']}", "LittleEndian", c)
+    chk.floor("endianness-purity", "ByteOrder call sites in codec impls", n_calls, 60)
+    for key, (ty, endian, _) in ENCODERS.items():
+        h = fx.hirfn(f"<{ty} as {ENC}::BasicEncode>::endianness")
+        p = H.path_of(h["body"])
+        chk.expect(p is not None and p.endswith("Endianness::" + endian.replace("Endian", "")), "endianness-purity", ty, "endianness()",
+                   endian, p, loc=C.fn_loc(h))
+    # basic codecs themselves (byteordered::ByteOrdered with a static endianness)
+    for nm, endian in (("encode::basic::LittleEndianBasicEncoder", "LittleEndian"), ("encode::basic::BigEndianBasicEncoder", "BigEndian"),
+                       ("decode::basic::LittleEndianBasicDecoder", "LittleEndian"), ("decode::basic::BigEndianBasicDecoder", "BigEndian")):
+        fs = fx.find_fns("dicom_encoding", lambda p, nm=nm: p.startswith(f"<dicom_encoding::{nm} as dicom_encoding::"))
+        cnt = 0
+        for f in fs:
+            for bb, t in M.calls(f):
+                d = M.callee_decl(t) or ""
+                if d.startswith("byteordered::wrap::ByteOrdered") or "byteorder::" in d:
+                    ga = d + " " + " ".join(t["fn"].get("ga", [])) + " " + (M.callee(t) or "")
+                    cnt += 1
+                    other = "BigEndian" if endian == "LittleEndian" else "LittleEndian"
+                    chk.expect(endian in ga and other not in ga, "endianness-purity", f["path"], d.split("::")[-1] + f"@{t['l']}", endian, ga)
+        chk.floor("endianness-purity", f"{nm} byte-order calls", cnt, 16)
+
+
 def run(chk, tier):
     fx = facts.load("W")
     ref = C.vr_ref()
@@ -239,57 +293,7 @@ def run(chk, tier):
         ctor = [c for c, _ in H.calls(hh["body"]) if c and c.endswith("SequenceItemHeader::new")]
         chk.expect(len(ctor) == 1, "header-bytes-read", f"dec:{key}", "item-header-ctor", "SequenceItemHeader::new", ctor)
 
-    # ---------------- rule 3: endianness purity (MIR, resolved generic argument)
-    chk.rule("endianness-purity", "every ByteOrder call inside a codec's impl resolves to the codec's endianness; "
-             "BasicEncode::endianness returns the matching constant; the `basic` field is the matching basic codec")
-    n_calls = 0
-    for group, table in (("enc", ENCODERS), ("dec", DECODERS)):
-        for key, spec in table.items():
-            ty, endian = spec[0], spec[1]
-            fs = fx.find_fns("dicom_encoding", lambda p, ty=ty: p.startswith(f"<{ty} as "))
-            if len(fs) < 3:
-                raise facts.MissingAnchor(f"impl bodies for {ty}: {len(fs)}")
-            for f in fs:
-                for bb, t in M.calls(f):
-                    c = M.callee(t) or ""
-                    if "byteorder::ByteOrder>::" in c:
-                        n_calls += 1
-                        chk.expect(f"<byteorder::{endian} as" in c, "endianness-purity", f["path"], c.split("::")[-1] + f"@{t['l']}",
-                                   endian, c, loc=f"{f['loc']['f']}:{t['l']}")
-            # the basic codec field
-            adt = fx.adt(ty.replace("<D>", ""))
-            basic = [fl for v in adt["variants"] for fl in v["fields"] if fl["name"] == "basic"]
-            exp_basic = ("LittleEndianBasic" if endian == "LittleEndian" else "BigEndianBasic") + ("Encoder" if group == "enc" else "Decoder")
-            chk.expect(len(basic) == 1 and basic[0]["ty"].endswith(exp_basic), "endianness-purity", ty, "basic-field", exp_basic,
-                       [b["ty"] for b in basic])
-    # also helper fns in adaptive_le
-    for p in (f"{DEC}::adaptive_le::decode_explicit_length", f"{DEC}::adaptive_le::decode_implicit_length", f"{DEC}::adaptive_le::decode_explicit_header"):
-        f = fx.fn(p)
-        for bb, t in M.calls(f):
-            c = M.callee(t) or ""
-            if "byteorder::ByteOrder>::" in c:
-                n_calls += 1
-                chk.expect("<byteorder::LittleEndian as" in c, "endianness-purity", p, c.split("::")[-1] + f"@{t['l']}", "LittleEndian", c)
-    chk.floor("endianness-purity", "ByteOrder call sites in codec impls", n_calls, 60)
-    for key, (ty, endian, _) in ENCODERS.items():
-        h = fx.hirfn(f"<{ty} as {ENC}::BasicEncode>::endianness")
-        p = H.path_of(h["body"])
-        chk.expect(p is not None and p.endswith("Endianness::" + endian.replace("Endian", "")), "endianness-purity", ty, "endianness()",
-                   endian, p, loc=C.fn_loc(h))
-    # basic codecs themselves (byteordered::ByteOrdered with a static endianness)
-    for nm, endian in (("encode::basic::LittleEndianBasicEncoder", "LittleEndian"), ("encode::basic::BigEndianBasicEncoder", "BigEndian"),
-                       ("decode::basic::LittleEndianBasicDecoder", "LittleEndian"), ("decode::basic::BigEndianBasicDecoder", "BigEndian")):
-        fs = fx.find_fns("dicom_encoding", lambda p, nm=nm: p.startswith(f"<dicom_encoding::{nm} as dicom_encoding::"))
-        cnt = 0
-        for f in fs:
-            for bb, t in M.calls(f):
-                d = M.callee_decl(t) or ""
-                if d.startswith("byteordered::wrap::ByteOrdered") or "byteorder::" in d:
-                    ga = d + " " + " ".join(t["fn"].get("ga", [])) + " " + (M.callee(t) or "")
-                    cnt += 1
-                    other = "BigEndian" if endian == "LittleEndian" else "LittleEndian"
-                    chk.expect(endian in ga and other not in ga, "endianness-purity", f["path"], d.split("::")[-1] + f"@{t['l']}", endian, ga)
-        chk.floor("endianness-purity", f"{nm} byte-order calls", cnt, 16)
+    endianness_purity(chk, fx)
 
     # ---------------- rule 4: the u16 length cast is range-guarded with an error exit
     chk.rule("u16-length-guard", "in both explicit encoders every IntToInt cast u32->u16 of the length is dominated by a comparison "
